@@ -4,6 +4,9 @@ import vf
 import codec_common as cc
 
 
+EMPTY_BODY = "(Some (VPtr (Some (VStruct []))))"
+
+
 def off_grid_time(val):
     return any(int(x) % 100 != 0 for x in re.findall(r"\(Some \(?(-?\d+)\)?\)", val or ""))
 
@@ -48,6 +51,8 @@ def run(ctx):
             continue
         if why.startswith("second decode differs") and off_grid_time(ob.get("val")):
             key = "datetime-out-of-range"
+        elif why.startswith("second decode differs") and EMPTY_BODY in (ob.get("val") or ""):
+            key = "extobj-empty-struct"
         else:
             key = "%s/%s/%s" % (ob["ty"], ob.get("src", "").split(" ")[0], why.split(":")[0][:30].replace(" ", "_"))
         if key in seen:
@@ -76,6 +81,26 @@ def run(ctx):
     else:
         corr_ok = False
 
+    # the hypotheses of C03_partial_reencode (grid, rwf) evaluated inside Coq on every decoded value: they may only fail in
+    # the two refuted classes (off-grid DateTime, extension object with an empty registered struct); and the unproved
+    # lemma behind "rwf can only fail there" (the re-encoding is not longer than what was consumed) on the implementation
+    hyp_n, hyp_out, longer = None, [], 0
+    good = [ob for ob in decoded if cc.model_evaluable(ob) and len(ob.get("val", "")) < 20000]
+    if okm and good:
+        imports = cc.IMPORTS.replace("Model.CodecEq ", "Model.CodecEq Model.CodecWf Model.CodecWfAll ")
+        okw, idxw, wlog = ctx.eval_cases(imports, "ty * val", ["(%s, %s)" % (ob["ty"], ob["val"]) for ob in good],
+                                         "  grid (snd c) && rwf reg (fst c) (snd c)", shard=80, name="HypCases")
+        if okw:
+            hyp_n = len(good) - len(idxw)
+            hyp_out = [good[i] for i in idxw if not off_grid_time(good[i]["val"]) and EMPTY_BODY not in good[i]["val"]]
+            ctx.log("%d of %d decoded values satisfy grid && rwf (hypotheses of C03_partial_reencode); %d outside beyond the two refuted classes"
+                    % (hyp_n, len(good), len(hyp_out)))
+            if hyp_out:
+                detail["decoded_values_outside_hypotheses"] = [{"ty": o["ty"], "hex": o.get("hex", "")[:200], "val": o["val"][:400]} for o in hyp_out[:4]]
+        else:
+            detail["hyp_cases"] = wlog[-1500:]
+    longer = sum(1 for ob in decoded if ob.get("re") == "ok" and ob.get("len2", 0) > ob.get("consumed", 0))
+
     distinct = {(ob["ty"], ob.get("hex")) for ob in decoded if ob["len"] > 0}
     ctx.coverage.update({
         "evaluations": len(obs), "distinct_nontrivial": len(distinct),
@@ -85,5 +110,8 @@ def run(ctx):
         "noncanonical_reencodings": sum(1 for ob in decoded if ob.get("hex2") and ob.get("hex2") != ob.get("hex", "")[:len(ob.get("hex2", ""))]),
         "types_hit": len({ob["ty"] for ob in decoded}),
         "traces_validated_against_impl": nmodel,
+        "decoded_values_satisfying_theorem_hypotheses": hyp_n,
+        "decoded_values_outside_hypotheses_not_in_refuted_classes": len(hyp_out),
+        "reencodings_longer_than_consumed_input": longer,
     })
     ctx.conclude(proof_ok, corr_ok, new, detail)
